@@ -17,7 +17,7 @@ import (
 )
 
 // mutators applied by the handler of the first request (the "history")
-const zzNumMutators = 35
+const zzNumMutators = 40
 
 func zzMutate(c context.Context, ctx *app.RequestContext, m int, v []byte) {
 	s := string(v)
@@ -93,8 +93,26 @@ func zzMutate(c context.Context, ctx *app.RequestContext, m int, v []byte) {
 		ctx.Hijack(func(c network.Conn) {})
 	case 34:
 		ctx.Response.HijackWriter(resp.NewChunkedBodyWriter(&ctx.Response, ctx.GetWriter()))
+	case 35:
+		// a response body stream whose Close reports an error (e.g. a file closed twice)
+		ctx.Response.SetBodyStream(&zzBadCloser{r: bytes.NewReader([]byte("bs" + s))}, 3)
+	case 36:
+		ctx.Request.Header.Del("X-Ra") // a non-last entry of the header list
+	case 37:
+		ctx.QueryArgs().Del("a")
+	case 38:
+		ctx.Request.Header.DelCookie("s")
+	case 39:
+		ctx.Response.Header.Set("X-Wa", s)
+		ctx.Response.Header.Set("X-Wb", s)
+		ctx.Response.Header.Del("X-Wa")
 	}
 }
+
+type zzBadCloser struct{ r *bytes.Reader }
+
+func (b *zzBadCloser) Read(p []byte) (int, error) { return b.r.Read(p) }
+func (b *zzBadCloser) Close() error               { return errors.New("zz: close failed") }
 
 // zzDump writes everything the second request's handler can observe about the recycled
 // context and its request/response objects.
@@ -178,7 +196,7 @@ func zzDump(ctx *app.RequestContext) []byte {
 	return b
 }
 
-const zzProbe = "POST /probe?x=1 HTTP/1.1\r\nHost: p\r\nx-low: v\r\nContent-Length: 2\r\n\r\nzz"
+const zzProbe = "POST /probe?x=1&y=2&z=3 HTTP/1.1\r\nHost: p\r\nx-low: v\r\nX-Pa: 1111\r\nX-Pb: 2222\r\nX-Pc: 3333\r\nCookie: pa=1; pb=2; pc=3\r\nContent-Length: 2\r\n\r\nzz"
 
 // ZZ_C09_H1: a history of mutating API calls applied during request 1 (symbolic choice of two
 // mutators from the list, symbolic argument byte) must be invisible to request 2 on the same
@@ -189,15 +207,17 @@ func ZZ_C09_H1() {
 	m2 := zz.Choose("mutator2", zzNumMutators+1) // the extra value means "none"
 	arg := zz.Bytes("arg", 1)
 	zz.Assume(arg[0] > ' ' && arg[0] < 0x7f && arg[0] != ';' && arg[0] != '=' && arg[0] != '&' && arg[0] != '#' && arg[0] != '%')
-	if m1 == 33 || m2 == 33 {
-		return // a hijacked connection serves no further request (ZZ_C09_H5 covers that mutator)
+	if m1 == 33 || m2 == 33 || m1 == 35 || m2 == 35 {
+		// a hijacked connection, or one whose response stream failed to close, serves no further
+		// request (ZZ_C09_H5 covers those mutators: the probe runs on another connection)
+		return
 	}
 	panics := zz.Choose("recoveredPanic", 2) == 1
 	opts := zz.Choose("serverOptions", 3) // 0 defaults, 1 NoDefaultContentType, 2 DisableHeaderNamesNormalizing
 	run := func(withHistory bool) (dump []byte, out []byte) {
 		wire := []byte(zzProbe)
 		if withHistory {
-			wire = append([]byte("POST /first?a=b&debug HTTP/1.1\r\nHost: f\r\nCookie: s=1; novalue\r\nContent-Type: application/x-www-form-urlencoded\r\nContent-Length: 7\r\n\r\nabc&f=1"), wire...)
+			wire = append([]byte("POST /first?a=b&debug&c=d HTTP/1.1\r\nHost: f\r\nX-Ra: aaaa\r\nX-Rb: bbbb\r\nX-Rc: cccc\r\nCookie: s=1; novalue; t=2\r\nContent-Type: application/x-www-form-urlencoded\r\nContent-Length: 7\r\n\r\nabc&f=1"), wire...)
 		}
 		nc := zz.NewNetConn(wire)
 		n := 0
@@ -278,7 +298,7 @@ func ZZ_C09_H5() {
 		dump = zzDump(ctx)
 		ctx.Response.SetBodyString("probe")
 	}
-	nc1 := zz.NewNetConn([]byte("POST /first?a=b&debug HTTP/1.1\r\nHost: f\r\nCookie: s=1; novalue\r\nContent-Length: 7\r\n\r\nabc&f=1" + zzProbe))
+	nc1 := zz.NewNetConn([]byte("POST /first?a=b&debug&c=d HTTP/1.1\r\nHost: f\r\nX-Ra: aaaa\r\nX-Rb: bbbb\r\nX-Rc: cccc\r\nCookie: s=1; novalue; t=2\r\nContent-Length: 7\r\n\r\nabc&f=1" + zzProbe))
 	if fault == 0 {
 		nc1.WriteErrAt = at
 	} else {
